@@ -917,13 +917,20 @@ class ProcessingPipeline:
             allow_external_sources=allow_external_sources,
         )
 
-    def apply(self, rule: SigmaRule | SigmaCorrelationRule) -> SigmaRule | SigmaCorrelationRule:
-        """Apply processing pipeline on Sigma rule."""
+    def apply(
+        self,
+        rule: SigmaRule | SigmaCorrelationRule,
+        state: dict[str, Any] | None = None,
+    ) -> SigmaRule | SigmaCorrelationRule:
+        """
+        Apply processing pipeline on Sigma rule. The state of the pipeline starts empty or, for a
+        pipeline nested into another one, with a copy of the given state.
+        """
         self.applied = list()
         self.applied_ids = set()
         self.field_name_applied_ids = defaultdict(set)
         self.field_mappings = FieldMappingTracking()
-        self.state = dict()
+        self.state = dict(state) if state is not None else dict()
         for item in self.items:
             applied = item.apply(rule)
             self.applied.append(applied)
